@@ -12,7 +12,8 @@ LEVEL = 'exploration'
 BUDGET = {'quick': 2500, 'thorough': 60000}
 RULE = ('Model-based histories over 1..3 filterbank objects: Hypothesis draws (num_taps 1..8, num_branches '
         'in {2..64 even} or small odd, window, input dtype real/complex/int, seed) and a list of feeds '
-        '(object, chunk of w windows, cache on/off, optional cache reset); each cached stream must deliver '
+        '(object, chunk of w windows, cache on/off, optional cache reset, memory layout of the chunk: contiguous, strided view, '
+        'one part of a complex/2-column array, negative stride, read-only); each cached stream must deliver '
         'exactly the spectra of a one-shot reference over everything fed so far (direct windowed sum + explicit '
         'DFT matrix, 1e-10 relative), un-cached calls must equal the reference of the chunk alone and leave '
         'cached streams undisturbed; linearity and Re/Im decomposition are checked per case; additionally all '
@@ -20,7 +21,7 @@ RULE = ('Model-based histories over 1..3 filterbank objects: Hypothesis draws (n
         'cached chunks on one stream, or complex input.')
 ASSUMPTIONS = ['chunks are whole multiples of num_taps*num_branches samples (the property\'s admissible sizes)',
                'reference DFT by explicit matrix product in complex128', 'comparison tolerance 1e-10 relative to the largest reference magnitude']
-REQUIRED_CLASSES = ['dtype=real', 'dtype=complex', 'dtype=int', 'chunks>=2', 'objects>=2', 'uncached_interleaved',
+REQUIRED_CLASSES = ['non_contiguous_input', 'readonly_input', 'dtype=real', 'dtype=complex', 'dtype=int', 'chunks>=2', 'objects>=2', 'uncached_interleaved',
                     'odd_branches', 'enumerated', 'long_call', 'huge_call', 'forked_object']
 
 WINDOWS = ['hamming', 'hann', 'boxcar', 'blackman']
@@ -30,6 +31,8 @@ def strategy(tier):
     feed = st.fixed_dictionaries({'obj': st.integers(0, 2), 'w': st.integers(1, 4),
                                   'cache': st.sampled_from([True, True, True, False]),
                                   'reset': st.sampled_from([False] * 7 + [True]),
+                                  # memory layout of the chunk handed over (same values)
+                                  'layout': st.sampled_from(['contig'] * 3 + ['strided', 'part_of_complex', 'reversed', 'readonly']),
                                   # replace object (obj+1) by a copy of this one before feeding: both continue independently
                                   'fork': st.sampled_from([None] * 5 + ['copy', 'deepcopy'])})
     return st.fixed_dictionaries({
@@ -84,6 +87,29 @@ def make_input(n, dtype, rs):
     if dtype == 'int':
         return rs.randint(-128, 128, size=n)
     return rs.standard_normal(n) + 1j * rs.standard_normal(n)
+
+
+def lay(x, layout):
+    """The same values in another memory layout: a strided view, one part of a complex array, a reversed view, a
+    read-only buffer. All are ordinary numpy arrays a caller may hand over."""
+    if layout == 'strided':
+        buf = np.zeros(2 * len(x), dtype=x.dtype)
+        buf[1::2] = 12345
+        buf[::2] = x
+        return buf[::2]
+    if layout == 'part_of_complex' and x.dtype.kind == 'f':
+        return (x + 1j * (x[::-1] + 7.0)).real
+    if layout == 'part_of_complex' and x.dtype.kind == 'c':
+        buf = np.zeros((len(x), 2), dtype=x.dtype)
+        buf[:, 0] = x
+        buf[:, 1] = -3.0
+        return buf[:, 0]
+    if layout == 'reversed':
+        return x[::-1].copy()[::-1]
+    y = x.copy()
+    if layout == 'readonly':
+        y.setflags(write=False)
+    return y
 
 
 def reference(x, h, T, B):
@@ -186,13 +212,16 @@ def run_case(case, ctx):
                 emitted[k] = 0
                 obs.cls('with_reset')
             x = make_input(f['w'] * T * B, dtype, rs)
+            layout = f.get('layout', 'contig')
+            if layout != 'contig':
+                obs.cls('layout=' + layout, 'non_contiguous_input' if layout != 'readonly' else 'readonly_input')
             if f['cache']:
                 streams[k] = np.concatenate([streams[k], x])
                 full = reference(streams[k], h, T, B)
                 want = full[emitted[k]:]
                 emitted[k] = len(full)
                 chunks[k] += 1
-                ok, got = core.call(obs, 'channelize', pfb.channelize, x.copy(), cache=True)
+                ok, got = core.call(obs, 'channelize', pfb.channelize, lay(x, layout), cache=True)
                 if ok:
                     good, why = close(got, want, scale=max(float(np.max(np.abs(full))) if full.size else 1.0, 1e-300))
                     if not good:
@@ -202,7 +231,7 @@ def run_case(case, ctx):
                 want = reference(x, h, T, B)
                 if any(chunks):
                     saw_uncached_between = True
-                ok, got = core.call(obs, 'channelize_nocache', pfb.channelize, x.copy(), cache=False)
+                ok, got = core.call(obs, 'channelize_nocache', pfb.channelize, lay(x, layout), cache=False)
                 if ok:
                     good, why = close(got, want)
                     if not good:
